@@ -206,7 +206,20 @@ def run(ctx):
             if inside and hs and ret_false:
                 ok = True
     if ga and all(len(g.args) >= 3 for g in ga):
-        ok = True  # getattr with a default never raises AttributeError
+        # getattr with a default never raises — acceptable only if the default is a private
+        # sentinel (module-level `object()`) that cannot equal any searched value
+        sentinel = True
+        for g in ga:
+            d = g.args[2]
+            r = p.resolve_name(fb.module, d.id) if isinstance(d, ast.Name) else None
+            if not (r is not None and r[0] == "const" and isinstance(r[1], ast.Call) and norm(r[1].func) == "object"):
+                sentinel = False
+        if sentinel:
+            ok = True
+        else:
+            ctx.viol("F4", fb, ga[0], "a missing attribute is replaced by the default `%s`, which can equal the searched value: nodes "
+                     "lacking the attribute are selected instead of skipped" % norm(ga[0].args[2]))
+            ok = True
     if ok:
         ctx.inst("F4", fb, fb.node, "missing attribute → False")
     else:
